@@ -583,8 +583,12 @@ func persistedFields(c *Ctx, rule, typ string, transient map[string]string) {
 		if n := jsonNames[strings.Split(reflect.StructTag(st.Tag(i)).Get("json"), ",")[0]]; n > 1 {
 			c.ob(rule, typ+"."+f.Name()+"/json-name-unique", f.Pos(), false, true, "two fields of "+typ+" carry the same json name: encoding/json then saves and restores neither of them")
 		}
-		if reason, ok := transient[f.Name()]; ok {
-			c.ob(rule, typ+"."+f.Name()+"/transient", f.Pos(), true, false, "not persisted by design: "+reason)
+		oldName := f.Name()
+		if o, ok := renamedFieldsOf(nt.Obj().Pkg().Path(), typ, st)[f.Name()]; ok {
+			oldName = o // the reference tree's field under a new name
+		}
+		if reason, ok := transient[oldName]; ok {
+			c.ob(rule, typ+"."+oldName+"/transient", f.Pos(), true, false, "not persisted by design: "+reason)
 			continue
 		}
 		if !f.Exported() && c.unobservedNewField(typ, f) {
